@@ -298,7 +298,7 @@ class H:
                     sim.fault("task_crash")
                     sim.log("svc_crash", svc=name, tag=e.tag)  # type: ignore[attr-defined]
                     raise e
-                if spec.get("action") == "builtin":
+                if spec.get("action") in ("builtin", "aw_obj"):
                     # told to stop through a built-in bound method (list.clear) given as
                     # the teardown action
                     for _ in range(2000):  # (polls for a bounded stretch of virtual time)
@@ -343,6 +343,19 @@ class H:
             await start_service_task(body, name, teardown_action=act)
         elif action == "builtin":
             await start_service_task(body, name, teardown_action=flag.clear)
+        elif action == "aw_obj":
+            # a plain callable returning an awaitable *object* (not a coroutine) whose
+            # awaiting is what tells the service to stop
+            async def _stop() -> None:
+                sim.log("svc_action", svc=name)
+                await anyio.lowlevel.checkpoint()
+                flag.clear()
+
+            class _AwStop:
+                def __await__(self_) -> Any:
+                    return _stop().__await__()
+
+            await start_service_task(body, name, teardown_action=lambda: _AwStop())
         else:
             await start_service_task(body, name)
         sim.log("svc_reg", svc=name)
@@ -748,7 +761,7 @@ def gen(rng: random.Random, tier: str, prop: str) -> dict:
                 nsvc[0] += 1
                 sv: dict[str, Any] = {"name": f"s{nsvc[0]}"}
                 if rng.random() < 0.4:
-                    sv["action"] = rng.choice(("araise", "sraise", "builtin"))
+                    sv["action"] = rng.choice(("araise", "sraise", "builtin", "aw_obj"))
                 if rng.random() < 0.3:
                     sv["handshake"] = rng.choice((0.25, 0.5, 1.0))
                 out.append(["svc", sv])
